@@ -47,6 +47,7 @@ func (ex *Exec) logEnv(st *State, reach, name string, args []Val) string {
 	ex.setComp(st, "envlog|kind", sArr(sInt, sInt), mkStore(kindC, n, num(int64(k))))
 	row := mkSelect(argC, n)
 	idx := 0
+	snap := false
 	for _, a := range args {
 		la := a
 		if a.LV != nil || a.Fn != nil {
@@ -64,6 +65,22 @@ func (ex *Exec) logEnv(st *State, reach, name string, args []Val) string {
 				break
 			}
 			t := la.L[i]
+			if l.Kind == lkSliceRef && !snap && i+1 < len(la.L) {
+				if sl, ok := l.T.Underlying().(*types.Slice); ok {
+					if b, ok := sl.Elem().Underlying().(*types.Basic); ok && b.Kind() == types.Uint8 {
+						// snapshot of the first []byte argument at the time of the call
+						snap = true
+						bt := types.Typ[types.Uint8]
+						ec := ex.comp(st, compE(bt, 0), sArr(sInt, sArr(sInt, sInt)))
+						bc := ex.comp(st, "envlog|bytes", sArr(sInt, sArr(sInt, sInt)))
+						ex.setComp(st, "envlog|bytes", sArr(sInt, sArr(sInt, sInt)), mkStore(bc, n, mkSelect(ec, t)))
+						oc := ex.comp(st, "envlog|boff", sArr(sInt, sInt))
+						ex.setComp(st, "envlog|boff", sArr(sInt, sInt), mkStore(oc, n, la.L[i+1]))
+						ex.noteWrite("envlog|bytes", "*")
+						ex.noteWrite("envlog|boff", "*")
+					}
+				}
+			}
 			switch {
 			case l.Sort == sInt:
 			case l.Sort == sBool:
@@ -113,6 +130,9 @@ func (ex *Exec) envCallSpec(fr *Frame, st *State, reach, name string, env *EnvSp
 	ex.lockFreeAtEnv(fr, st, reach, name, pos)
 	pre := st.clone()
 	entry := ex.logEnv(st, reach, name, args)
+	for _, a := range args {
+		ex.markEnvOwned(st, a)
+	}
 	senv := &SpecEnv{ex: ex, cur: st, old: pre, vars: map[string]Val{}, pkg: ex.pkgOf(fr.fn), qn: &ex.qcounter}
 	for i := 0; i < sig.Params().Len() && i < len(args); i++ {
 		if nm := sig.Params().At(i).Name(); nm != "" {
@@ -125,8 +145,8 @@ func (ex *Exec) envCallSpec(fr *Frame, st *State, reach, name string, env *EnvSp
 			old := ex.comp(st, mi.comp, mi.srt)
 			nw := ex.sc.fresh("env_"+trunc(sanitize(mi.comp), 20), mi.srt)
 			if mi.ref == "" {
-				if mi.comp == compE(types.Typ[types.Uint8], 0) && ex.envOwnedOnly {
-					// only environment-owned byte arrays may change
+				if mi.envOnly {
+					// only environment-owned arrays may change
 					own := ex.comp(st, "envowned", sArr(sInt, sBool))
 					ex.sc.assert(fmt.Sprintf("(forall ((r Int)) (! (=> (not (select %s r)) (= (select %s r) (select %s r))) :pattern ((select %s r))))", own, nw, old, nw))
 				}
@@ -154,19 +174,64 @@ func (ex *Exec) envCallSpec(fr *Frame, st *State, reach, name string, env *EnvSp
 		g := senv.evalBool(cl.E, fmt.Sprintf("env %s assume #%d", name, i+1))
 		ex.sc.assert(mkImp(reach, g))
 	}
-	// results handed out by the environment are environment-owned
+	// results handed out by the environment are environment-owned, and so are
+	// the byte arrays referenced from the elements of a returned slice of structs.
+	// What the environment hands out is something it already owned or something
+	// it allocated itself: never an object private to the verified code.
+	ownPre := ex.comp(pre, "envowned", sArr(sInt, sBool))
+	allocPre := ex.comp(pre, compAlloc, sArr(sInt, sBool))
+	envRef := func(r string) string {
+		return mkOr(mkEq(r, "0"), mkSelect(ownPre, r), mkNot(mkSelect(allocPre, r)))
+	}
 	for _, r := range res {
+		if r.T != nil {
+			ls := flatten(r.T)
+			if len(ls) == len(r.L) {
+				for i, l := range ls {
+					if len(l.Dims) == 0 && (l.Kind == lkSliceRef || (l.Kind == lkRef && l.PtrTo != nil)) {
+						ex.sc.assert(envRef(r.L[i]))
+					}
+				}
+			}
+		}
 		ex.markEnvOwned(st, r)
+		if r.T == nil {
+			continue
+		}
+		if sl, ok := r.T.Underlying().(*types.Slice); ok {
+			for k, l := range flatten(sl.Elem()) {
+				if l.Kind == lkSliceRef {
+					own := ex.comp(st, "envowned", sArr(sInt, sBool))
+					arr := ex.elemArr(st, sl.Elem(), k, r.L[0])
+					ex.sc.assert(fmt.Sprintf("(forall ((i Int)) (! (=> (and (<= %s i) (< i (+ %s %s))) (and (or (= (select %s i) 0) (select %s (select %s i))) (or (= (select %s i) 0) (select %s (select %s i)) (not (select %s (select %s i)))))) :pattern ((select %s i))))",
+						r.L[1], r.L[1], r.L[2], arr, own, arr, arr, ownPre, arr, allocPre, arr, arr))
+				}
+			}
+		}
 	}
 	return packResults(sig, res)
 }
 
-// markEnvOwned marks byte arrays reachable in one step from v as environment-owned.
+// markEnvOwned: arrays and objects handed to / out by the environment (one
+// level: the slices and pointers among the leaves of v) become environment-owned.
 func (ex *Exec) markEnvOwned(st *State, v Val) {
-	if !ex.envOwnedOnly || v.T == nil {
+	if v.T == nil || v.LV != nil || v.Fn != nil {
 		return
 	}
-	// only the direct case []byte and []struct{...[]byte...} is tracked via a quantified fact
+	leaves := flatten(v.T)
+	if len(leaves) != len(v.L) {
+		return
+	}
+	for i, l := range leaves {
+		if len(l.Dims) > 0 {
+			continue
+		}
+		if l.Kind == lkSliceRef || (l.Kind == lkRef && l.PtrTo != nil) {
+			own := ex.comp(st, "envowned", sArr(sInt, sBool))
+			ex.setComp(st, "envowned", sArr(sInt, sBool), mkStore(own, v.L[i], "true"))
+			ex.noteWrite("envowned", "*")
+		}
+	}
 }
 
 // ---------------------------------------------------------------------------
@@ -391,4 +456,26 @@ func (ex *Exec) assumeSorted(st *State, reach string, v Val, nw string) {
 	g := env.evalBool(pd.Body, "sortPost_"+n.Obj().Name())
 	ex.sc.assert(mkImp(reach, g))
 	ex.assumedUsed["sort.Sort leaves no inversion w.r.t. Less when all elements lie in one window (pred sortPost_"+n.Obj().Name()+")"] = true
+}
+
+// envlogFrame: the ghost trace is append-only (only logEnv writes it, at index
+// len), so after any havoc of the trace every entry below the earlier length is
+// unchanged.
+func (ex *Exec) envlogFrame(before, after *State) {
+	n0, ok := before.heap["envlog|len"]
+	if !ok {
+		n0 = ex.sc.global("H0_envlog_len", sInt)
+	}
+	for _, c := range []string{"envlog|kind", "envlog|arg", "envlog|bytes", "envlog|boff"} {
+		srt, known := ex.compSort[c]
+		if !known {
+			continue
+		}
+		o := ex.comp(before, c, srt)
+		n := ex.comp(after, c, srt)
+		if o == n {
+			continue
+		}
+		ex.sc.assert(fmt.Sprintf("(forall ((i Int)) (! (=> (and (<= 0 i) (< i %s)) (= (select %s i) (select %s i))) :pattern ((select %s i))))", n0, n, o, n))
+	}
 }
